@@ -252,4 +252,27 @@ def q1_rules(ctx, w, S, R, rf):
         ctx.check(set(pf) <= prd, "Q1b", pdf, "Pen::is_default looks at %s of the pen's components %s" % (sorted(prd), pf), loc=w.fn_loc(pdf), sample={"reads": sorted(prd)})
     else:
         ctx.missing_anchor("Q1b", pdf)
+    # ... and by evaluation: only the space character with the all-default pen is a default cell
+    try:
+        from rules import c11
+        cases = []
+        dp = c11.default_pen
+        for ch in (32, 120, 0xA0, 0x3000, 0x2003, 9, 0x7F):
+            cases.append(("U+%04X, default pen" % ch, ("v", "cell::Cell", (("chr", ch), dp())), ch == 32))
+        p1 = dp(); p1[2]["foreground"] = H.some(("v", "color::Color::Indexed", (1,)))
+        p2 = dp(); p2[2]["background"] = H.some(("v", "color::Color::Indexed", (4,)))
+        p3 = dp(); p3[2]["intensity"] = ("v", "pen::Intensity::Bold")
+        pens = [("foreground set", p1), ("background set", p2), ("bold", p3)]
+        for a in ("italic", "underline", "blink", "inverse", "strikethrough"):
+            pa = dp()
+            c11.ApplyInterp(w.facts).call_fn("pen::Pen::set_" + a, [pa])
+            pens.append((a, pa))
+        for nm, pn in pens:
+            cases.append(("space, %s" % nm, ("v", "cell::Cell", (("chr", 32), pn)), False))
+        for nm, cell, want in cases:
+            got = c11.ApplyInterp(w.facts).call_fn(cd, [cell])
+            ctx.check(got is want, "Q1b", cd + ":" + nm, "Cell::is_default(%s) = %r, expected %r: only a space in the all-default pen is padding a re-wrap may drop" % (nm, got, want), loc=w.fn_loc(cd),
+                      sample={"cell": nm, "is_default": got})
+    except (H.Unsupported, KeyError, TypeError, IndexError) as ex:
+        ctx.violation("Q1b", cd + ":evaluate", "cannot evaluate Cell::is_default (%s): the droppable-cell predicate must be `character == ' ' && pen is default`" % (ex,), loc=w.fn_loc(cd))
     ctx.floor("Q1b", 3, "blank-predicate obligations")
